@@ -17,9 +17,12 @@ pub struct P<E: Engine>(pub E);
 /// Runs `f` on a copy of `data` that starts `off` bytes after a 64-byte boundary, `off` rotating through 0, 13, 26, …
 /// from call to call (`[u8; 64]` has alignment 1: a caller-owned `ShardsRefMut` may sit at ANY address, and the primitives
 /// must not depend on where — the crate's own buffers always come aligned from the allocator), then copies the result back.
+thread_local! { static WHAT: std::cell::RefCell<String> = std::cell::RefCell::new(String::new()); }
+
 fn at_rotating_offset(data: &mut [[u8; 64]], f: impl FnOnce(&mut [[u8; 64]])) {
     thread_local! { static OFF: std::cell::Cell<usize> = std::cell::Cell::new(0); }
     let off = OFF.with(|o| { let v = o.get(); o.set((v + 13) % 64); v });
+    WHAT.with(|w| crate::fatal::set_current(&format!("{} on {} blocks starting {} bytes after a 64-byte boundary", w.borrow(), data.len(), off)));
     if off == 0 {
         return f(data);
     }
@@ -37,18 +40,21 @@ fn at_rotating_offset(data: &mut [[u8; 64]], f: impl FnOnce(&mut [[u8; 64]])) {
 
 impl<E: Engine> Prims for P<E> {
     fn fft(&self, data: &mut [[u8; 64]], count: usize, len64: usize, pos: usize, size: usize, trunc: usize, delta: usize) {
+        WHAT.with(|w| *w.borrow_mut() = format!("{}::fft count={} len64={} pos={} size={} trunc={} delta={}", std::any::type_name::<E>(), count, len64, pos, size, trunc, delta));
         at_rotating_offset(data, |d| {
             let mut r = ShardsRefMut::new(count, len64, d);
             self.0.fft(&mut r, pos, size, trunc, delta);
         });
     }
     fn ifft(&self, data: &mut [[u8; 64]], count: usize, len64: usize, pos: usize, size: usize, trunc: usize, delta: usize) {
+        WHAT.with(|w| *w.borrow_mut() = format!("{}::ifft count={} len64={} pos={} size={} trunc={} delta={}", std::any::type_name::<E>(), count, len64, pos, size, trunc, delta));
         at_rotating_offset(data, |d| {
             let mut r = ShardsRefMut::new(count, len64, d);
             self.0.ifft(&mut r, pos, size, trunc, delta);
         });
     }
     fn mul(&self, x: &mut [[u8; 64]], log_m: u16) {
+        WHAT.with(|w| *w.borrow_mut() = format!("{}::mul log_m={}", std::any::type_name::<E>(), log_m));
         at_rotating_offset(x, |d| self.0.mul(d, log_m));
     }
     fn eval_poly(&self, e: &mut [u16; 65536], trunc: usize) {
